@@ -105,6 +105,7 @@ func runOracle(args []string) {
 	c.out = bufio.NewWriter(os.Stdout)
 	processPrelude()
 	startWatchdog(c)
+	preludeCanary(c)
 	f, ok := oracles[c.pid]
 	if ok {
 		f(c)
@@ -151,6 +152,55 @@ func startWatchdog(c *oracleCtx) {
 			wdMu.Unlock()
 		}
 	}()
+}
+
+// preludeCanary: after the process prelude (other builders with operators on `!`, `%` and dynamic tokens were built and
+// used) a fresh plain parser must still read plain programs that use those tokens: no hang, no error. Checked for the
+// properties that a valid program which no longer parses violates as worded (behaviour, JavaScript parse, print → parse,
+// custom operators stay with their builder, totality, isolation).
+func preludeCanary(c *oracleCtx) {
+	switch c.pid {
+	case "C01", "C02", "C03", "C05", "C11", "C14":
+	default:
+		return
+	}
+	for _, src := range []string{"let done = false\n!done\n", "x = 5 % 3\ny = !x\n", "f(a) % 2\n", "if (!a) { b = c % d }\n"} {
+		input := map[string]any{"src": hexOf(src), "text": src, "canary": true,
+			"history": "other lexer / parser builders (postfix operators on `!` and `%`, operators on registered tokens) were built and used earlier in this process"}
+		type res struct {
+			errs string
+			pan  string
+		}
+		ch := make(chan res, 1)
+		go func() {
+			defer func() {
+				if r := recover(); r != nil {
+					ch <- res{pan: fmt.Sprint(r)}
+				}
+			}()
+			_, errs := oaParse(src)
+			if len(errs) > 0 {
+				ch <- res{errs: oaErrText(errs)}
+			} else {
+				ch <- res{}
+			}
+		}()
+		select {
+		case r := <-ch:
+			c.count("canary:" + src)
+			if r.pan != "" {
+				c.violation("prelude-pollutes", "after other builders were used, a fresh plain parser panics on a valid program: "+r.pan, input)
+				return
+			}
+			if r.errs != "" {
+				c.violation("prelude-pollutes", "after other builders were used, a fresh plain parser rejects a valid program: "+r.errs, input)
+				return
+			}
+		case <-time.After(5 * time.Second):
+			c.violation("prelude-pollutes", "after other builders were used, a fresh plain parser does not return on a valid program (5 s)", input)
+			return
+		}
+	}
 }
 
 // guard runs f, turning a panic into a violation of the given class
